@@ -1541,6 +1541,84 @@ impl Gen<'_> {
         out.push(shout(var(&c)));
     }
 
+    /// A name that has one type outside and another inside a nested block, loop body or function
+    /// body, with functions of the inner block returning it (directly, through a local, through
+    /// another function) and their results used in operations that fit the inner type only.
+    fn type_shadow_idiom(&mut self, out: &mut Vec<Stmt>) {
+        self.budget -= 8;
+        let v = self.fresh_name("ts");
+        let lit = |g: &mut Self, t: usize| -> Expr {
+            match t {
+                0 => g.num_lit(),
+                1 => g.str_lit(),
+                2 => Expr::Bool(g.rng.chance(1, 2)),
+                _ => Expr::Arr(vec![g.num_lit()]),
+            }
+        };
+        let typed_use = |e: Expr, t: usize| -> Expr {
+            match t {
+                0 => bin(BinOp::Times, e, num(2)),
+                1 => method(e, "to_uppercase", vec![]),
+                2 => bin(BinOp::And, e, Expr::Bool(true)),
+                _ => method(e, "len", vec![]),
+            }
+        };
+        let ta = self.rng.usize(4);
+        let tb = (ta + 1 + self.rng.usize(3)) % 4;
+        let ty_of = |t: usize| match t {
+            0 => Ty::Num,
+            1 => Ty::Str,
+            2 => Ty::Bool,
+            _ => Ty::arr(Ty::Num),
+        };
+        let outer_init = lit(self, ta);
+        out.push(Stmt::Make { name: v.clone(), init: Some(outer_init), decl: u32::MAX });
+        self.declare(VarInfo { name: v.clone(), ty: ty_of(ta), frozen: true, fixed: false, lens: vec![] });
+        let (g, h) = (self.fresh_name("w"), self.fresh_name("w"));
+        let mk = |name: &str, body: Vec<Stmt>| Stmt::FuncDef(Box::new(FuncDef { name: name.to_string(), params: vec![], param_decls: vec![], body: Block { stmts: body }, id: u32::MAX }));
+        let inner_init = lit(self, tb);
+        let mut inner: Vec<Stmt> = vec![Stmt::Make { name: v.clone(), init: Some(inner_init), decl: u32::MAX }];
+        let g_body = match self.rng.weighted(&[3, 2, 2]) {
+            0 => vec![Stmt::Return(Some(var(&v)))],
+            1 => {
+                let t = self.fresh_name("s");
+                vec![Stmt::Make { name: t.clone(), init: Some(var(&v)), decl: u32::MAX }, Stmt::Return(Some(var(&t)))]
+            }
+            _ => vec![Stmt::If { cond: Expr::Bool(true), then_b: Block { stmts: vec![Stmt::Return(Some(var(&v)))] }, else_b: None }, Stmt::Return(Some(var(&v)))],
+        };
+        let def_g = mk(&g, g_body);
+        let def_h = mk(&h, vec![Stmt::Return(Some(call(&g, vec![])))]);
+        let uses = vec![shout(typed_use(call(&g, vec![]), tb)), shout(typed_use(call(&h, vec![]), tb)), shout(typed_use(var(&v), tb))];
+        if self.rng.chance(1, 2) {
+            inner.push(def_g);
+            inner.push(def_h);
+            inner.extend(uses);
+        } else {
+            // forward references: the calls come first, the definitions after them
+            inner.push(def_h);
+            inner.extend(uses);
+            inner.push(def_g);
+        }
+        match self.rng.weighted(&[3, 2, 2, 3]) {
+            0 => out.push(Stmt::Block(Block { stmts: inner })),
+            1 => out.push(Stmt::If { cond: Expr::Bool(true), then_b: Block { stmts: inner }, else_b: None }),
+            2 => {
+                let i = self.fresh_name("i");
+                out.push(Stmt::Make { name: i.clone(), init: Some(num(0)), decl: u32::MAX });
+                self.declare(VarInfo { name: i.clone(), ty: Ty::Num, frozen: true, fixed: false, lens: vec![] });
+                inner.insert(0, Stmt::Assign { name: i.clone(), value: bin(BinOp::Add, var(&i), num(1)), decl: u32::MAX });
+                out.push(Stmt::Loop { cond: bin(BinOp::Lt, var(&i), num(self.rng.range(1, 2))), body: Block { stmts: inner } });
+            }
+            _ => {
+                let f = self.fresh_name("w");
+                inner.push(Stmt::Return(Some(num(0))));
+                out.push(mk(&f, inner));
+                out.push(Stmt::Expr(call(&f, vec![])));
+            }
+        }
+        out.push(shout(typed_use(var(&v), ta)));
+    }
+
     /// An array of arrays built row by row, in place: rows start empty (a literal, or a copy of an
     /// empty variable) or with one element and grow through the nested receiver `m[r].push(e)`
     /// inside a loop body or a function, i.e. in frames that end before the rows are read.
@@ -1646,6 +1724,10 @@ impl Gen<'_> {
             self.cmd_idiom(out);
             return false;
         }
+        if !deep && self.budget > 10 && self.rng.chance(1, if p == Profile::Scope { 25 } else { 100 }) {
+            self.type_shadow_idiom(out);
+            return false;
+        }
         if p == Profile::Dead && self.rng.chance(1, 14) {
             self.trap_statement(out);
             return false;
@@ -1746,11 +1828,43 @@ impl Gen<'_> {
     fn trap_statement(&mut self, out: &mut Vec<Stmt>) {
         let name = self.fresh_name("u");
         let live = self.rng.chance(1, 2);
-        let e = match self.rng.weighted(&[3, 3, 3, 2]) {
+        let e = match self.rng.weighted(&[3, 3, 3, 2, 4]) {
             0 => {
-                // divisor that is zero only sometimes
-                let d = if live { num(0) } else { num(self.rng.range(0, 1)) };
+                // divisor that is zero only sometimes; zero is written in several ways
+                let d = if live { Expr::Num((*self.rng.pick(&["0", "0.0", "00.00", "0.000"])).to_string()) } else { num(self.rng.range(0, 1)) };
                 bin(*self.rng.pick(&[BinOp::Divide, BinOp::Mod]), self.num_expr(2), d)
+            }
+            4 => {
+                // operator, condition or built-in parameter applied to a parameter whose run-time
+                // type may not fit it
+                let fname = self.fresh_name("f");
+                let pname = self.fresh_name("p");
+                let p = var(&pname);
+                let body = match self.rng.weighted(&[4, 2, 2, 2, 1]) {
+                    0 => {
+                        let op = *self.rng.pick(&[BinOp::Minus, BinOp::Times, BinOp::Gt, BinOp::Lt, BinOp::Eq, BinOp::And, BinOp::Or, BinOp::Add]);
+                        let other = match op {
+                            BinOp::And | BinOp::Or => Expr::Bool(true),
+                            _ => num(1),
+                        };
+                        vec![Stmt::Return(Some(if self.rng.chance(1, 2) { bin(op, p, other) } else { bin(op, other, p) }))]
+                    }
+                    1 => vec![Stmt::Return(Some(Expr::Un(*self.rng.pick(&[UnOp::Not, UnOp::Neg]), Box::new(p))))],
+                    2 => vec![
+                        Stmt::If { cond: p, then_b: Block { stmts: vec![Stmt::Return(Some(num(1)))] }, else_b: None },
+                        Stmt::Return(Some(num(2))),
+                    ],
+                    3 => vec![Stmt::Return(Some(method(plain("abc"), "slice", vec![p, num(2)])))],
+                    _ => vec![Stmt::Return(Some(method(Expr::Arr(vec![num(1), num(2)]), "join", vec![p])))],
+                };
+                out.push(Stmt::FuncDef(Box::new(FuncDef { name: fname.clone(), params: vec![pname], param_decls: vec![], body: Block { stmts: body }, id: u32::MAX })));
+                let arg = match self.rng.below(4) {
+                    0 => self.num_lit(),
+                    1 => self.str_lit(),
+                    2 => Expr::Bool(true),
+                    _ => Expr::Null,
+                };
+                call(&fname, vec![arg])
             }
             1 => {
                 let k = if live { 7 } else { self.rng.range(0, 3) };
